@@ -61,6 +61,21 @@ impl<F> Lut<F> {
     }
 }
 
+/// Verification hook (only with `--cfg jaq_verif`): the compiled term table, one `Debug`
+/// rendering per entry, so that external tools can compare it with a model of the compiler.
+#[cfg(jaq_verif)]
+impl<F> Filter<F> {
+    /// Debug text of every term of the look-up table, in table order.
+    pub fn verif_terms(&self) -> Vec<String> {
+        self.lut.terms.iter().map(|t| alloc::format!("{t:?}")).collect()
+    }
+
+    /// Index of the entry term.
+    pub fn verif_entry(&self) -> usize {
+        self.id.0
+    }
+}
+
 /// How to call a filter implemented by definition.
 ///
 /// This is important to achieve tail-call optimisation (TCO).
